@@ -144,7 +144,7 @@ static void iv_fd_poll_notify_fd(struct iv_state *st, struct iv_fd_ *fd)
 		}
 
 		fd->u.index = -1;
-	} else {
+	} else if (fd->u.index != -1) {
 		st->u.poll.pfds[fd->u.index].events =
 			bits_to_poll_mask(fd->wanted_bands);
 	}
